@@ -6,7 +6,7 @@ Tie:    harness/simdrv.c <-> Drivers/SimMain.lean on generated scenarios (profil
 """
 import simcheck
 
-PROFILES = ['resource', 'pool', 'buffer', 'oq', 'pq', 'mixed', 'crowd', 'poolleft']
+PROFILES = ['resource', 'pool', 'buffer', 'oq', 'pq', 'mixed', 'crowd', 'poolleft', 'coincide', 'qdrain']
 
 
 def run(chk):
